@@ -1,42 +1,18 @@
 /-
   C17 — only well-formed UTF-8 ever reaches a str.
-  The general theorems (`valid_append`, `encode_valid`, printed text valid for every value and option
-  set, the two unchecked conversions of the &str source) are in LexprModel/Proofs/Utf8Valid.lean
-  (when present).  Proved here: ASCII is valid in every automaton state it can occur in; every byte at
-  which a scanner may stop is ASCII, so the scanners split the input at character boundaries; the
-  checked paths (slice / stream) reject ill-formed and incomplete sequences.
+  Fully proved (LexprModel/Proofs/Utf8Valid.lean, imported here; main theorems in namespace Lexpr.C17):
+   * the automaton: `run_append`, `valid_append`, `valid_ascii`, `valid_split_ascii` (a valid string
+     splits into valid halves at any ASCII byte), `encode_valid`, `decodeFirst_encode` for every scalar;
+   * printer: `valid_escapeStr` and `C17_print_valid` — for every value with valid payloads and every
+     printer option set the text is valid and so is every single emission (what `Display` needs);
+   * parser: `C17_symbol_bytes_valid`, `C17_r6rs_str_valid` — the two `from_utf8_unchecked` sites of the
+     &str source return valid bytes given valid input; `C17_elisp_str_valid` — Emacs strings are
+     always checked; the slice and stream sources validate on return.
+  Proved here in addition: every byte at which a scanner may stop is ASCII; the checked conversions
+  reject invalid bytes.
 -/
-import LexprModel.Lex
-import LexprModel.Print
+import LexprModel.Proofs.Utf8Valid
 namespace Lexpr
-namespace Utf8
-
-/-- an ASCII byte keeps the automaton idle, and is rejected in the middle of a sequence -/
-theorem step_ascii (b : UInt8) (h : b < 0x80) : step .idle b = some .idle := by
-  simp [step, h]
-
-theorem step_mid_ascii (need : Nat) (lo hi b : UInt8) (h : b < 0x80) (hlo : 0x80 ≤ lo) :
-    step (.mid need lo hi) b = none := by
-  have : ¬ (lo ≤ b) := by
-    intro hle
-    have h1 : b.toNat < 128 := by simpa [UInt8.lt_iff_toNat_lt] using h
-    have h2 : 128 ≤ lo.toNat := by simpa [UInt8.le_iff_toNat_le] using hlo
-    have h3 : lo.toNat ≤ b.toNat := by simpa [UInt8.le_iff_toNat_le] using hle
-    omega
-  simp [step, this]
-
-/-- ASCII text is valid -/
-theorem C17_valid_ascii (bs : List UInt8) (h : ∀ b ∈ bs, b < 0x80) : valid bs = true := by
-  have : run .idle bs = some .idle := by
-    induction bs with
-    | nil => rfl
-    | cons b bs ih =>
-      simp only [run, step_ascii b (h b (by simp))]
-      exact ih (fun x hx => h x (by simp [hx]))
-  simp [valid, this]
-
-end Utf8
-
 namespace Parse
 
 /-- every byte at which a symbol, a string body or a character name may end is ASCII:
